@@ -42,7 +42,7 @@ Quantified over: {p['quantifier']['text']}
 Requirements for the change
 1. It must break the property as stated above, but ONLY under a condition that is hard to hit. Prefer, in this order: (a) TWO cooperating code sites that each look fine alone (one site starts returning a view / another dtype / another default / a cached value and a second site relies on the old behaviour); (b) a multi-step sequence of operations or a particular cache/storage state of an object (which representation was read before, how the object was constructed, which operation was applied earlier, whether the same object or the same process was used before); (c) a particular option combination of a command line tool that is legal but rare; (d) an exactly-hit boundary value or an unusual but valid input (dtype, container type, one-element input, duplicate values, extreme magnitude, special characters, file-system layout, locale/environment); (e) a crash at a particular point or a particular interleaving of processes. It must NOT be something ordinary use would expose at once. Be creative: think about what a thorough randomized tester would most likely NOT try. Model it on what really happens in pull requests to such a project: numpy/scipy/pandas/matplotlib API migrations, vectorisation of loops, caching, type-hint driven refactors, pathlib/argparse/logging clean-ups, de-duplication of helper code, changed defaults.
 2. It must look like a plausible maintainer mistake / refactoring / "optimisation" (small diff, typically 2-20 changed lines, in the evo/ package only; do not edit tests).
-3. Earlier seeded changes already touched these functions: {av}. Choose DIFFERENT code sites and a different mechanism and a different clause of the property than those (you may touch other functions of the same files). Earlier rounds (for this and the other properties) already used these kinds of trigger, so pick ANOTHER kind: dtype propagation from integer/float32 inputs; shallow copies combined with the in-place projection; caches keyed by object identity, path or list identity; in-place edits by plotting helpers and output-only plot options; logging level; symbolic links and empty files; subclass instances; inputs larger than a block size; unsigned timestamps; re-used metric objects; duplicate file arguments; non-finite values in nested containers; number spellings like ".5"; tolerant equality (allclose) at large magnitudes; quaternions of file precision; whole-number timestamps; extreme scales (1e-6, 1e6); numeric options given as exactly 0 ("falsy zero"); one-shot iterators shared between command line processing steps; cached derived quantities (distances); statistics that are exactly 0.0; output paths spelled with "~", "./", ".." or relative to another directory; repeated calls on the same matplotlib Figure; options read from a -c config file instead of flags; state carried over between several trajectories of one command; re-used StringIO buffers; Fortran-ordered / transposed arrays; truthy non-bool flags; file names that are glob patterns; repeated command line options; time zone / locale of the process; exact half turns and np.sign(0); mutable default arguments; numpy scalars where Python ints are expected; whitespace layouts of text files; files without the usual header line; relative tolerances above 1; n x 1 column arrays; trajectories that compare equal; explicitly passed optional arguments; output names without extension; a reset directly after a package upgrade; consecutive duplicate poses; positions aliasing a stacked pose array; path lengths hitting delta exactly; bags with several topics; pathlib.Path arguments; shared module-level constants returned to callers; nano-radian steps; equal file names in different directories; non-default package settings; attitudes about a principal axis; file names with several dots; two outputs sharing one target; values 0/1 compared with True/False; positionally passed optional arguments; the same array object several times in a pose list; a trajectory associated with itself; small skews / cancelling entries in validity tests; first stamp not the smallest; a statistic named like an array; all-zero quaternions; input lines out of chronological order; DataFrames with a non-monotonic index; "$NAME" in file names; three-process interleavings; trajectories of exactly 3 or 4 poses; planar positions with 3-D attitudes; files without a final line break; "%" in names; redundant constructor arguments; re-opening without truncation; re-ordered / repeated index lists; exactly tied matrix entries; a cache key that omits a flag; options in front of the sub-command; single-value results; stale output files of an earlier run; end-of-file at a prompt; gimbal lock; bounds equal to a stamp; mirror-image data; refused calls that leave partial state (exception safety); file handles not at offset 0; sub-command specific readers; negative scale factors; thread interleavings on module-level scratch buffers; sample rates with sub-nanosecond steps; dict insertion order; flags cleared by another operation; "./" spellings of the reference among the inputs; copy-on-write sharing; Ctrl+C at a prompt; import order / import-time side effects; an unlink by another process; long accumulated path lengths; one input shorter than an option value and the other longer; numpy error state / warnings as errors; objects built by the file readers (incl. from open file handles); legacy ROS names with a leading slash; KITTI files of different lengths; negative (from-the-end) indices; longdouble arguments; more than 10^4 poses; which representation was read before; tuples / non-string keys / numpy scalars in info dictionaries; a metadata dictionary shared by several objects; transformation files without translation; adopting the caller's dictionary; upper-case file extensions; --plot together with saving; option values spelling "true"/"false"/"None"; lexicographic version comparison; negative timestamps.
+3. Earlier seeded changes already touched these functions: {av}. Choose DIFFERENT code sites and a different mechanism and a different clause of the property than those (you may touch other functions of the same files). Earlier rounds (for this and the other properties) already used these kinds of trigger, so pick ANOTHER kind: dtype propagation from integer/float32 inputs; shallow copies combined with the in-place projection; caches keyed by object identity, path or list identity; in-place edits by plotting helpers and output-only plot options; logging level; symbolic links and empty files; subclass instances; inputs larger than a block size; unsigned timestamps; re-used metric objects; duplicate file arguments; non-finite values in nested containers; number spellings like ".5"; tolerant equality (allclose) at large magnitudes; quaternions of file precision; whole-number timestamps; extreme scales (1e-6, 1e6); numeric options given as exactly 0 ("falsy zero"); one-shot iterators shared between command line processing steps; cached derived quantities (distances); statistics that are exactly 0.0; output paths spelled with "~", "./", ".." or relative to another directory; repeated calls on the same matplotlib Figure; options read from a -c config file instead of flags; state carried over between several trajectories of one command; re-used StringIO buffers; Fortran-ordered / transposed arrays; truthy non-bool flags; file names that are glob patterns; repeated command line options; time zone / locale of the process; exact half turns and np.sign(0); mutable default arguments; numpy scalars where Python ints are expected; whitespace layouts of text files; files without the usual header line; relative tolerances above 1; n x 1 column arrays; trajectories that compare equal; explicitly passed optional arguments; output names without extension; a reset directly after a package upgrade; consecutive duplicate poses; positions aliasing a stacked pose array; path lengths hitting delta exactly; bags with several topics; pathlib.Path arguments; shared module-level constants returned to callers; nano-radian steps; equal file names in different directories; non-default package settings; attitudes about a principal axis; file names with several dots; two outputs sharing one target; values 0/1 compared with True/False; positionally passed optional arguments; the same array object several times in a pose list; a trajectory associated with itself; small skews / cancelling entries in validity tests; first stamp not the smallest; a statistic named like an array; all-zero quaternions; input lines out of chronological order; DataFrames with a non-monotonic index; "$NAME" in file names; three-process interleavings; trajectories of exactly 3 or 4 poses; planar positions with 3-D attitudes; files without a final line break; "%" in names; redundant constructor arguments; re-opening without truncation; re-ordered / repeated index lists; exactly tied matrix entries; a cache key that omits a flag; options in front of the sub-command; single-value results; stale output files of an earlier run; end-of-file at a prompt; gimbal lock; bounds equal to a stamp; mirror-image data; refused calls that leave partial state (exception safety); file handles not at offset 0; sub-command specific readers; negative scale factors; thread interleavings on module-level scratch buffers; sample rates with sub-nanosecond steps; dict insertion order; flags cleared by another operation; "./" spellings of the reference among the inputs; copy-on-write sharing; Ctrl+C at a prompt; import order / import-time side effects; an unlink by another process; long accumulated path lengths; one input shorter than an option value and the other longer; numpy error state / warnings as errors; objects built by the file readers (incl. from open file handles); legacy ROS names with a leading slash; KITTI files of different lengths; negative (from-the-end) indices; longdouble arguments; more than 10^4 poses; which representation was read before; tuples / non-string keys / numpy scalars in info dictionaries; a metadata dictionary shared by several objects; transformation files without translation; adopting the caller's dictionary; upper-case file extensions; --plot together with saving; option values spelling "true"/"false"/"None"; lexicographic version comparison; negative timestamps; chained unit conversions; exactly symmetric point sets; a common start position; reference cycles in metadata; -0.0 in the first / last pose with informational options; rows sharing a timestamp; right-multiplied Sim(3); components 12+ orders of magnitude apart; steps that are almost half turns; a crop bound on a duplicated stamp; options between positional file arguments; tuple / stacked pose containers; column-major arrays from the pandas bridge; names ending in a blank; a settings file without version stamp; several open figures with different units.
 4. The existing test-suite must still pass exactly as before. Run it from the worktree so that the worktree's evo is imported:
    cd {wt} && PYTHONPATH={wt} /venv/bin/python -m pytest -q -p no:cacheprovider --timeout=900 --continue-on-collection-errors
    Expected BEFORE and AFTER your change: "1 failed, 82 passed, 3 errors" (the 1 failure is TestBagFile::test_write_read_integrity and the 3 errors are the *_smoke_test.py collection errors; these fail on the pristine tree too). All 82 passing tests must still pass.
